@@ -32,7 +32,7 @@ package cert
 //@   ensures @C17,C05 curves != nil && (forall a in [4, 14) :: has(curves, a) && curves[a] != nil && curveId(curves[a]) == a)
 //@   ensures @C17,C05 oidv(oidP224) == specCurveOid(4) && oidv(oidP256) == specCurveOid(5) && oidv(oidP384) == specCurveOid(6) && oidv(oidP521) == specCurveOid(7) && oidv(oidBrainpoolP256r1) == specCurveOid(8) && oidv(oidBrainpoolP384r1) == specCurveOid(9) && oidv(oidBrainpoolP512r1) == specCurveOid(10) && oidv(oidBrainpoolP256t1) == specCurveOid(11) && oidv(oidBrainpoolP384t1) == specCurveOid(12) && oidv(oidBrainpoolP512t1) == specCurveOid(13)
 //@   ensures @C17,C05 curveNameOids != nil && (forall a in [4, 14) :: has(curveNameOids, curveName(a)) && curveNameOids[curveName(a)] != nil && oidv(curveNameOids[curveName(a)]) == specCurveOid(a))
-//@   ensures @C17,C05 (forall a in [4, 14) expand :: len(curveNameOids[curveName(a)]) >= 2 && curveNameOids[curveName(a)][0] == 1 && 0 <= curveNameOids[curveName(a)][1] && curveNameOids[curveName(a)][1] < 40 && (forall k in [2, len(curveNameOids[curveName(a)])) :: curveNameOids[curveName(a)][k] >= 0))
+//@   ensures @C17,C05 (forall a in [4, 14) expand :: oidOk(oidv(curveNameOids[curveName(a)])))
 //@   ensures @C07 oidAiaOcsp != nil && len(oidAiaOcsp) == 9 && oidv(oidAiaOcsp) == #oidAdOcsp
 //@   ensures @C07 len(extKeyUsages) == 6 && (forall i in [0, 6) :: extKeyUsages[i] != nil && oidv(extKeyUsages[i]) == specEkuOid(i))
 //@   ensures @C07 ocspNoCheck.Critical == false && ocspNoCheckCritical.Critical == true && oidv(ocspNoCheck.Id) == specExtOid(12) && oidv(ocspNoCheckCritical.Id) == specExtOid(12) && len(ocspNoCheck.Value) == 2 && ocspNoCheck.Value[0] == 5 && ocspNoCheck.Value[1] == 0 && len(ocspNoCheckCritical.Value) == 2 && ocspNoCheckCritical.Value[0] == 5 && ocspNoCheckCritical.Value[1] == 0
@@ -184,7 +184,7 @@ package cert
 
 //@ filelet CURVES = curves != nil && (forall a in [4, 14) :: has(curves, a) && curves[a] != nil && curveId(curves[a]) == a)
 //@ filelet OIDCURVES = oidv(oidP224) == specCurveOid(4) && oidv(oidP256) == specCurveOid(5) && oidv(oidP384) == specCurveOid(6) && oidv(oidP521) == specCurveOid(7) && oidv(oidBrainpoolP256r1) == specCurveOid(8) && oidv(oidBrainpoolP384r1) == specCurveOid(9) && oidv(oidBrainpoolP512r1) == specCurveOid(10) && oidv(oidBrainpoolP256t1) == specCurveOid(11) && oidv(oidBrainpoolP384t1) == specCurveOid(12) && oidv(oidBrainpoolP512t1) == specCurveOid(13)
-//@ filelet NAMEOIDSOK = (forall a in [4, 14) trigger curveName(a) :: len(curveNameOids[curveName(a)]) >= 2 && curveNameOids[curveName(a)][0] == 1 && 0 <= curveNameOids[curveName(a)][1] && curveNameOids[curveName(a)][1] < 40 && (forall k in [2, len(curveNameOids[curveName(a)])) :: curveNameOids[curveName(a)][k] >= 0))
+//@ filelet NAMEOIDSOK = (forall a in [4, 14) trigger curveName(a) :: oidOk(oidv(curveNameOids[curveName(a)])))
 //@ filelet NAMEOIDS = curveNameOids != nil && (forall a in [4, 14) trigger curveName(a) :: has(curveNameOids, curveName(a)) && curveNameOids[curveName(a)] != nil && oidv(curveNameOids[curveName(a)]) == specCurveOid(a))
 
 // ---- extensions (C06: identifier and critical flag; C07: value)
